@@ -168,11 +168,14 @@ class MetadataManager:
                 filesystem_version: Optional[int] = None
                 previous_metadata_file: Optional[str] = None
                 if self.storage.supports_cas:
+                    # Only the ETag is taken from this read. The version number
+                    # is resolved below by _current_version_info(), which falls
+                    # back to scanning the metadata files when the hint names a
+                    # missing file: numbering from the raw hint text would give
+                    # a commit made through a stale pointer a version BELOW
+                    # existing ones, and a later recovery would prefer those.
                     try:
-                        hint_bytes, hint_etag = self.storage.read_file_with_etag(self.HINT_PATH)
-                        parsed = self._parse_hint_content(hint_bytes)
-                        if parsed is not None:
-                            filesystem_version, previous_metadata_file = parsed
+                        _hint_bytes, hint_etag = self.storage.read_file_with_etag(self.HINT_PATH)
                     except FileNotFoundError:
                         hint_etag = None
 
@@ -209,8 +212,7 @@ class MetadataManager:
                     now_ms = current.last_updated_ms + 1
                 new_metadata.last_updated_ms = now_ms
 
-                # Resolve the current version (on CAS backends it was parsed from
-                # the hint read together with its ETag above).
+                # Resolve the current version (recovery-aware on every backend).
                 if filesystem_version is None:
                     info = self._current_version_info()
                     if info is not None:
